@@ -324,27 +324,30 @@ def evaluate_long(case):
     tens of thousands of states: the optimal value must scale with the values, must not depend on the search switches or on the
     bins-manager, must equal the two-dimensional subset-sum optimum for 3 bins (subset-sum optimum for 2), and no heuristic may beat it."""
     values, k, spec, c = case["values"], case["numbins"], case["objective"], case["c"]
-    labels = [f"k={k}", f"n={len(values)}", f"objective={spec}", f"factor={c}"]
+    alg = case.get("alg", "cg")
+    labels = [f"alg={alg}", f"k={k}", f"n={len(values)}", f"objective={spec}", f"factor={c}"]
     sense = oracles.objective_value(spec, [0])[1]
     fails, seen = [], {}
 
     def run(name, vals, opts, out=None):
-        cs = {"alg": "cg", "values": vals, "numbins": k, "pres": "list", "nseed": 0, "opts": dict(opts, objective=spec)}
+        cs = {"alg": alg, "values": vals, "numbins": k, "pres": "list", "nseed": 0}
+        if alg == "cg":
+            cs["opts"] = dict(opts, objective=spec)
         if out:
             cs["out"] = out
         o, obs = observe(cs)
         if not o.ok:
-            fails.append(Failure(f"{PROP}/cg/long:exception:{o.exc_type}@{o.where}", dict(o.describe(), run=name)))
+            fails.append(Failure(f"{PROP}/{alg}/long:exception:{o.exc_type}@{o.where}", dict(o.describe(), run=name)))
             return None
         if obs[0] != "value":
-            fails.append(Failure(f"{PROP}/cg/long:sums-do-not-describe-bins", {"run": name, "obs": sut.jsonable(obs)}))
+            fails.append(Failure(f"{PROP}/{alg}/long:sums-do-not-describe-bins", {"run": name, "obs": sut.jsonable(obs)}))
             return None
         seen[name] = obs[1]
         return obs[1]
     base = run("default", values, {})
     scaled = run(f"values-times-{c}", [v * c for v in values], {})
     if base is not None and scaled is not None and scaled != base * c:
-        fails.append(Failure(f"{PROP}/cg/optimal-value-changed-under-scale",
+        fails.append(Failure(f"{PROP}/{alg}/optimal-value-changed-under-scale",
                              {"original": sut.jsonable(base), "transformed": sut.jsonable(scaled), "expected": sut.jsonable(base * c), "factor": c}))
     variant = case.get("variant")
     other = None
@@ -354,17 +357,17 @@ def evaluate_long(case):
         other = run(f"switches={variant}", values, {"switches": variant})
     if base is not None and other is not None and other != base:
         worse = "default" if ((base > other) if sense == "min" else (base < other)) else "variant"
-        fails.append(Failure(f"{PROP}/cg/exact-solvers-disagree", {"objective": spec, "values_reported": sut.jsonable(seen), "worse": worse}))
+        fails.append(Failure(f"{PROP}/{alg}/exact-solvers-disagree", {"objective": spec, "values_reported": sut.jsonable(seen), "worse": worse}))
     if base is not None and k in (2, 3) and sum(values) <= 40000:
         want = oracles.opt_two_way(values, spec) if k == 2 else oracles.opt_three_way(values, spec)
         labels.append("independent-optimum")
         if base != want:
-            fails.append(Failure(f"{PROP}/cg/long:not-the-optimal-value", {"objective": spec, "reported": sut.jsonable(base), "optimum": sut.jsonable(want)}))
+            fails.append(Failure(f"{PROP}/{alg}/long:not-the-optimal-value", {"objective": spec, "reported": sut.jsonable(base), "optimum": sut.jsonable(want)}))
     if base is not None:
         for h, bins in (("greedy", refmodels.lpt(values, k)),):
             hv = oracles.objective_value(spec, [sum(b) for b in bins])[0]
             if (hv < base) if sense == "min" else (hv > base):
-                fails.append(Failure(f"{PROP}/cg/heuristic-beats-exact-solver", {"objective": spec, "heuristic": h, "heuristic_value": sut.jsonable(hv),
+                fails.append(Failure(f"{PROP}/{alg}/heuristic-beats-exact-solver", {"objective": spec, "heuristic": h, "heuristic_value": sut.jsonable(hv),
                                                                                  "exact_value": sut.jsonable(base)}))
     lpt = oracles.objective_value(spec, [sum(b) for b in refmodels.lpt(values, k)])[0]
     nontrivial = base is not None and lpt != base
@@ -382,11 +385,22 @@ def long_cases(draw):
             "c": draw(st.sampled_from(FACTORS)), "variant": variant}
 
 
+@st.composite
+def three_way_cases(draw):
+    """snp / rnp / ckk with three bins and 11-13 items: fast enough there, and the two-dimensional subset-sum table gives the optimum."""
+    alg = draw(st.sampled_from(["snp", "snp", "rnp", "ckk"]))
+    n = draw(st.integers(11, 12 if alg == "ckk" else 13))
+    hi = draw(st.sampled_from([20, 60, 60, 200, 1000]))
+    return {"kind": "long", "alg": alg, "values": S.splitmix(draw(st.integers(0, 2 ** 40)), n, 1, hi), "numbins": 3, "objective": "diff",
+            "c": draw(st.sampled_from(FACTORS)), "variant": draw(st.sampled_from([None, None, "sums-only"]))}
+
+
 def valid_long(case):
     v, k = case.get("values"), case.get("numbins")
     var = case.get("variant")
     return (isinstance(v, list) and 2 <= len(v) <= 16 and all(isinstance(x, int) and x >= 0 for x in v) and isinstance(k, int) and 2 <= k <= 5
             and case.get("objective") in ("diff", "minmax", "maxmin") and isinstance(case.get("c"), int) and 1 <= case["c"] <= 1024
+            and case.get("alg", "cg") in ("cg", "snp", "rnp", "ckk") and (case.get("alg", "cg") == "cg" or (case["objective"] == "diff" and var in (None, "sums-only")))
             and sum(v) <= 10 ** 6 and (var in (None, "sums-only") or (isinstance(var, list) and len(var) == 4 and var[0] in (0, 1) and var[0] == 1)))
 
 
@@ -487,6 +501,10 @@ def legs(tier):
             "bins-manager, must equal the subset-sum optimum (2 bins) or the two-dimensional subset-sum optimum (3 bins), and greedy may "
             "not beat it; non-trivial = the greedy partition is not optimal",
             strategy=long_cases(), n_quick=320, n_thorough=9600, valid=valid, shrink=shrink, floor=0.3, shards=16),
+        Leg("three-way-searches", evaluate,
+            "hypothesis: snp / rnp / ckk with three bins and 11-13 items (values up to 20 ... 1000): the optimal difference must scale with "
+            "the values, be the same through the sums-only bins-manager, equal the two-dimensional subset-sum optimum, and greedy may not "
+            "beat it; same rule", strategy=three_way_cases(), n_quick=600, n_thorough=16000, valid=valid, shrink=shrink, floor=0.3, shards=16),
     ]
 
 
